@@ -8,6 +8,7 @@ Files: `Base` (Python string primitives, `filter_whitespace`, `repr(bytes)`, UTF
 direct interpreter (`Interp`).
 -/
 import TornadoModel.C19.Gen
+import TornadoModel.C19.Path
 namespace TornadoModel.C19
 
 structure Source where
@@ -27,10 +28,28 @@ def initWs (s : Settings) (name : Str) : Ws :=
   | some w => w
   | none => if endsWith (/-".html"-/ [46, 104, 116, 109, 108] : List Nat) name || endsWith (/-".js"-/ [46, 106, 115] : List Nat) name then .single else .all
 
+/-! ### names
+`_IncludeBlock` keeps `(name, template_name = reader.name)` and `_get_ancestors` passes `(chunk.name, self.name)`;
+every later `loader.load(name, parent)` sends the pair through the pure function `resolve_path` and then looks the
+**resolved** name up in the cache.  The model stores the resolved name in the node (same pair, same function). -/
+mutual
+def resolveNode (parent : Str) : Node → Node
+  | .control s l b => .control s l (resolveBody parent b)
+  | .apply m l b => .apply m l (resolveBody parent b)
+  | .block n l b => .block n l (resolveBody parent b)
+  | .extends name => .extends (resolvePath name (some parent))
+  | .incl name l => .incl (resolvePath name (some parent)) l
+  | n => n
+def resolveBody (parent : Str) : List Node → List Node
+  | [] => []
+  | n :: ns => resolveNode parent n :: resolveBody parent ns
+end
+
+/-- `Template(self.dict[name], name=name, loader=self)`; `name` is the resolved name (the cache key) -/
 def parseSource (s : Settings) (src : Source) : Except PErr FileInfo :=
   match scan (initWs s src.name) s.autoescape src.text with
   | .error e => .error e
-  | .ok p => .ok ⟨src.name, p.body, p.autoescape⟩
+  | .ok p => .ok ⟨src.name, resolveBody src.name p.body, p.autoescape⟩
 
 /-- names referenced by `{% include %}` anywhere in a body -/
 def includesOf : Nat → List Node → List Str
@@ -86,5 +105,33 @@ def compile (s : Settings) (srcs : List Source) (entry : Str) : Outcome :=
       match generatePython L fuel t with
       | .error e => .genError e
       | .ok lines => .code lines
+
+def outcomeOf (L : Loader) (fuel : Nat) (entry : Str) : Outcome :=
+  match L.find entry with
+  | none => .genError .keyError
+  | some t =>
+    match generatePython L fuel t with
+    | .error e => .genError e
+    | .ok lines => .code lines
+
+/-- the cache `BaseLoader.templates` after a sequence of top-level `loader.load(name)` calls on ONE loader instance,
+starting from `cache`; a load that fails leaves the cache as it was (see `docs/C19.md`) -/
+def loadSeq (s : Settings) (srcs : List Source) : List Str → Loader → Loader
+  | [], cache => cache
+  | entry :: rest, cache =>
+    match loadAll s srcs (fuelFor srcs) [entry] cache with
+    | .error _ => loadSeq s srcs rest cache
+    | .ok L => loadSeq s srcs rest L
+
+/-- `[loader.load(n).code for n in names]` on ONE loader instance: the cache is carried from one load to the next -/
+def compileSeq (s : Settings) (srcs : List Source) : List Str → Loader → List Outcome
+  | [], _ => []
+  | entry :: rest, cache =>
+    let fuel := fuelFor srcs
+    match loadAll s srcs fuel [entry] cache with
+    | .error (.parse file e) => .parseError file e :: compileSeq s srcs rest cache
+    | .error (.missing _) => .genError .keyError :: compileSeq s srcs rest cache
+    | .error .fuel => .genError .fuel :: compileSeq s srcs rest cache
+    | .ok L => outcomeOf L fuel entry :: compileSeq s srcs rest L
 
 end TornadoModel.C19
